@@ -55,6 +55,30 @@ fn gen_sample(rng: &mut Rng, cons: &[([u8; 3], Complex<f64>)]) -> (Complex<f64>,
         2 => *rng.pick(&[1e-3, 1e3, 1.0, 0.5, 0.02, 0.05]),
         _ => rng.logu(-1.5, 1.0),
     };
+    // far samples with a proportionally large sigma (the LLRs stay O(1)..O(100)): any position in the plane is in the domain
+    if rng.chance(0.08) {
+        let mag = rng.logu(3.0, 100.0);
+        let sigma = (mag / rng.logu(-1.0, 2.0)).sqrt();
+        let r = Complex::from_polar(mag, rng.uniform(0.0, 2.0 * std::f64::consts::PI));
+        return (r, sigma);
+    }
+    // samples EXACTLY on a bisector between two neighbouring points (two metrics are bit-for-bit equal there):
+    // t*(1, sqrt2-1) and its images under the symmetries of the constellation, and the floats next to them
+    if rng.chance(0.08) {
+        let a = 2f64.sqrt() - 1.0;
+        let base = [(1.0, a), (a, 1.0), (-a, 1.0), (-1.0, a), (-1.0, -a), (-a, -1.0), (a, -1.0), (1.0, -a)];
+        let (x, y) = *rng.pick(&base);
+        let t = *rng.pick(&[1.0, 0.5, 2.0, 0.25, 3.0, 1e-3, 1e3, 0.7071067811865476]);
+        let mut re = x * t;
+        let mut im = y * t;
+        match rng.below(4) {
+            0 => re = f64::from_bits(re.to_bits() + 1),
+            1 => im = f64::from_bits(im.to_bits() + 1),
+            _ => {}
+        }
+        let sigma = *rng.pick(&[2.0, 1.0, 0.5, 0.1, 0.02, 10.0]);
+        return (Complex::new(re, im), sigma);
+    }
     let r = match rng.below(8) {
         0 => {
             // exactly a constellation point (possibly scaled)
@@ -125,8 +149,8 @@ fn hard(llr: f64) -> u8 {
 }
 
 pub fn run(run: &mut Run) {
-    run.rule = "BPSK: LLR vs (|r-s1|^2-|r-s0|^2)/(2 sigma^2) with s0,s1 read from the public modulator (relative 1e-13); 8PSK: LLR_b vs max-shifted log-sum-exp over the constellation obtained from the public modulator (all 8 triples), tolerance 1e-9(1+|L|) + 64u*max|metric|; samples: constellation points (scaled), decision boundaries, origin, far away (|r| up to 1e3), realistic noisy points, polar/log-uniform 1e-3..1e3; sigma log-uniform 1e-3..1e3; constellation = DVB-S2 Gray mapping, unit energy, neighbours differ in one bit; noiseless hard decisions for random bit sequences (owned arrays and reversed/strided views) return the bits; non-trivial = sample with |r|>0 not on a symmetry axis; distinct by (r, sigma) digest".into();
-    run.assumptions = vec!["sigma restricted to [1e-3,1e3] and |r| <= 1e3 so that |r|/sigma^2 stays far below the floating range".into()];
+    run.rule = "BPSK: LLR vs (|r-s1|^2-|r-s0|^2)/(2 sigma^2) with s0,s1 read from the public modulator (relative 1e-13); 8PSK: LLR_b vs max-shifted log-sum-exp over the constellation obtained from the public modulator (all 8 triples), tolerance 1e-9(1+|L|) + 64u*max|metric|; samples: constellation points (scaled), decision boundaries, origin, far away (|r| up to 1e3, and up to 1e100 with a proportionally large sigma), points exactly on the bisectors t*(1, sqrt2-1) and their images and 1-ulp neighbours, realistic noisy points, polar/log-uniform 1e-3..1e3; sigma log-uniform 1e-3..1e3; constellation = DVB-S2 Gray mapping, unit energy, neighbours differ in one bit; noiseless hard decisions for random bit sequences (owned arrays and reversed/strided views) return the bits; non-trivial = sample with |r|>0 not on a symmetry axis; distinct by (r, sigma) digest".into();
+    run.assumptions = vec!["|r|/sigma^2 stays below about 1e9 in every generated sample (far below the floating range)".into()];
     let n = if cfg!(miri) { 40 } else { run.tier.n(20_000_000, 600_000_000) };
     let chunk = 500u64;
     run.sub_seq("constellation", 1, |l, _i, _rng| {
